@@ -560,6 +560,11 @@ func (c *Conn) closeWithError(err error) {
 	}
 	c.mu.Unlock()
 
+	// close the socket first: a caller that is inside a Write which does not return
+	// (the peer has stopped reading, there is no write deadline) is not waiting for
+	// the error below, and only the closing of the socket frees it
+	cerr := c.close()
+
 	for _, req := range callsToClose {
 		// we need to send the error to all waiting queries.
 		select {
@@ -577,7 +582,6 @@ func (c *Conn) closeWithError(err error) {
 
 	// if error was nil then unblock the quit channel
 	c.cancel()
-	cerr := c.close()
 
 	if err != nil {
 		c.errorHandler.HandleError(c, err, true)
